@@ -357,6 +357,10 @@ class C18(Prop):
                               extra=sorted(extra), out=out))
         # behaviour under the aliasing universe
         t_in, t_out = G.run_both(case["mods"], entries, text, out)
+        if t_in is None:
+            # no universe in which every NEW denotes its OLD's object could be built: no reference behaviour
+            obs["universe_inconsistent"] = True
+            return fails[:4]
         if any(x.startswith("EXC ") or x == "SyntaxError" for x in t_in):
             # the input program does not run in its own universe: no reference behaviour, nothing is claimed
             # (a generator defect; visible as `input_fails` in the evidence distribution)
@@ -428,12 +432,14 @@ class C18(Prop):
     @staticmethod
     def _nonplain_single_locals(case):
         try:
-            return [(f, l) for f, l in G.toplevel_imports(case["text"]) if "." not in l and f != l]
+            imps = G.toplevel_imports(case["text"]) + [(f, l) for f, l, _ in G.nested_imports(case["text"])]
+            return [(f, l) for f, l in imps if "." not in l and f != l]
         except SyntaxError:
             return []
 
     def fam_alias_is_old_dotted_new(self, case, failure):
-        """C18-D1: a from-/aliased import's local name equals a single-component OLD whose NEW is dotted."""
+        """C18-D1: a from-/aliased import's local name (module-level or function-level import) equals a
+        single-component OLD whose NEW is dotted: the dotted NEW lands in alias / member position."""
         ents = self.effective_map(case)
         return any(l == o and "." in n for _, l in self._nonplain_single_locals(case) for o, n in ents)
 
@@ -474,6 +480,18 @@ class C18(Prop):
     def fam_nested_from_import(self, case, failure):
         """C18-D4: a function-level from-import whose statement text does not contain OLD contiguously
         (OLD spans the `import` keyword) is left alone: only module-level import blocks are parsed."""
+        ents = self.effective_map(case)
+        # (b) the member name of a function-level from-import is a single-component OLD: the textual replacement
+        #     puts NEW in member position ('from zy.y import zy.y') - same root cause, the statement is not parsed
+        try:
+            tree = ast.parse(case["text"])
+            top = set(map(id, tree.body))
+            for node in ast.walk(tree):
+                if isinstance(node, ast.ImportFrom) and id(node) not in top:
+                    if any(a.name == o for a in node.names for o, n in ents):
+                        return True
+        except SyntaxError:
+            pass
         if not (failure.get("nested") and failure.get("what") == "an import under OLD was not rewritten"):
             return False
         seg = failure.get("stmt") or ""
@@ -514,6 +532,8 @@ class C18(Prop):
             inc("with_forget")
         if obs.get("input_fails"):
             inc("input_fails")
+        if obs.get("universe_inconsistent"):
+            inc("universe_inconsistent")
         if case.get("dbsplit"):
             inc("db_two_assignments")
         if obs.get("out") is not None and obs["out"] != case["text"]:
